@@ -158,9 +158,36 @@ fn vtd_sound_q() { vtd_sound_body::<2>(); }
 #[kani::stub(ckb_types::utilities::compact_to_difficulty, stub_c2d)]
 fn vtd_sound() { vtd_sound_body::<3>(); }
 
-fn vtd_sound_body<const MAXN: u64>() {
-    // block difficulties < 2^64 (stated bound; the specification's own products then cannot overflow)
+#[kani::proof]
+#[kani::unwind(5)]
+#[kani::stub(alloc::fmt::format, stub_format)]
+#[kani::stub(log::__private_api::log, stub_log)]
+#[kani::stub(numext_fixed_uint::U256::_div_with_rem, stub_div_with_rem)]
+#[kani::stub(ckb_types::utilities::compact_to_difficulty, stub_c2d)]
+fn vtd_sound_q1() { vtd_sound_body_w::<1, 32>(); }
+
+#[kani::proof]
+#[kani::unwind(5)]
+#[kani::stub(alloc::fmt::format, stub_format)]
+#[kani::stub(log::__private_api::log, stub_log)]
+#[kani::stub(numext_fixed_uint::U256::_div_with_rem, stub_div_with_rem)]
+#[kani::stub(ckb_types::utilities::compact_to_difficulty, stub_c2d)]
+fn vtd_no_panic_q() {
+    // quick-tier variant of vtd_no_panic: at most ONE epoch switch in either direction (the underflow / overflow sites sit before the loop)
+    let d1 = pow_u256(); let d2 = pow_u256();
+    let c0: u32 = kani::any(); let cn: u32 = kani::any();
+    set_table(c0, &d1, &d2);
+    let se = wire_epoch(); let ee = wire_epoch();
+    kani::assume(ee.number().wrapping_sub(se.number()) <= 1 || se.number().wrapping_sub(ee.number()) <= 1);
+    let t0 = any_u256(); let t1 = any_u256();
+    let _ = verify_total_difficulty(se, c0, &t0, ee, cn, &t1, 2);
+}
+
+fn vtd_sound_body<const MAXN: u64>() { vtd_sound_body_w::<MAXN, 64>() }
+fn vtd_sound_body_w<const MAXN: u64, const BITS: u32>() {
+    // block difficulties < 2^BITS, BITS <= 64 (stated bound; the specification's own products then cannot overflow)
     let a: u64 = kani::any(); let b: u64 = kani::any();
+    if BITS < 64 { kani::assume(a < (1u64 << BITS) && b < (1u64 << BITS)); }
     let b0 = U256([a, 0, 0, 0]); let bn = U256([b, 0, 0, 0]);
     let c0: u32 = kani::any(); let cn: u32 = kani::any();
     set_table(c0, &b0, &bn);
@@ -209,6 +236,7 @@ fn vtd_sound_body<const MAXN: u64>() {
 // ---------------------------------------------------------------------------------------------------
 // O14.1 completeness: every legal history is accepted by both checks (probe P20: narrow operands)
 // ---------------------------------------------------------------------------------------------------
+fn tiny_u256() -> U256 { let a: u32 = kani::any(); U256([(a >> 8) as u64, 0, 0, 0]) }
 fn small_u256() -> U256 { let a: u64 = kani::any(); U256([a >> 8, 0, 0, 0]) }
 fn legal_step(prev: &U256, next: &U256) -> bool {
     let two = U256::from(2u64);
@@ -282,3 +310,72 @@ fn complete_n01() {
         kani::cover!(e1 > e0, "difficulty increased across the switch");
     }
 }
+
+#[kani::proof]
+#[kani::unwind(5)]
+#[kani::stub(alloc::fmt::format, stub_format)]
+#[kani::stub(log::__private_api::log, stub_log)]
+#[kani::stub(numext_fixed_uint::U256::_div_with_rem, stub_div_with_rem)]
+#[kani::stub(ckb_types::utilities::compact_to_difficulty, stub_c2d)]
+fn complete_n01_q() {
+    // quick-tier variant of complete_n01: block difficulties < 2^24, epoch lengths < 8
+    // same epoch, and exactly one switch: the true totals must be accepted
+    let b0 = tiny_u256(); let bn = tiny_u256();
+    kani::assume(!b0.is_zero() && !bn.is_zero());
+    let c0: u32 = kani::any(); let cn: u32 = kani::any();
+    kani::assume(c0 != cn);
+    set_table(c0, &b0, &bn);
+    let s: u64 = kani::any(); kani::assume(s < 1000);
+    let l0: u64 = kani::any(); let i0: u64 = kani::any(); kani::assume(l0 >= 1 && l0 < 8 && i0 < l0);
+    let t0 = tiny_u256();
+    let se = EpochNumberWithFraction::new_unchecked(s, i0, l0);
+    if kani::any() {
+        let i1: u64 = kani::any(); kani::assume(i1 >= i0 && i1 < l0);
+        let ee = EpochNumberWithFraction::new_unchecked(s, i1, l0);
+        let t1 = &t0 + &(&b0 * (i1 - i0));
+        assert!(matches!(verify_tau(se, c0, ee, c0, 2), Ok(true)), "SPEC completeness: same-epoch history rejected by verify_tau");
+        assert!(verify_total_difficulty(se, c0, &t0, ee, c0, &t1, 2).is_ok(), "SPEC completeness: same-epoch history rejected");
+    } else {
+        let ln: u64 = kani::any(); let i_n: u64 = kani::any(); kani::assume(ln >= 1 && ln < 8 && i_n < ln);
+        let ee = EpochNumberWithFraction::new_unchecked(s + 1, i_n, ln);
+        let e0 = &b0 * l0; let e1 = &bn * ln;
+        kani::assume(legal_step(&e0, &e1));
+        let t1 = &(&t0 + &(&b0 * (l0 - i0 - 1))) + &(&bn * (i_n + 1));
+        assert!(matches!(verify_tau(se, c0, ee, cn, 2), Ok(true)), "SPEC completeness: one-switch history rejected by verify_tau");
+        assert!(verify_total_difficulty(se, c0, &t0, ee, cn, &t1, 2).is_ok(), "SPEC completeness: one-switch history rejected");
+        kani::cover!(e1 > e0, "difficulty increased across the switch");
+    }
+}
+
+#[kani::proof]
+#[kani::unwind(5)]
+#[kani::stub(alloc::fmt::format, stub_format)]
+#[kani::stub(log::__private_api::log, stub_log)]
+#[kani::stub(numext_fixed_uint::U256::_div_with_rem, stub_div_with_rem)]
+#[kani::stub(ckb_types::utilities::compact_to_difficulty, stub_c2d)]
+fn complete_n0_q() {
+    // quick tier: the true total of a history INSIDE ONE EPOCH is accepted by both checks (one switch and more: thorough tier)
+    let b0 = small_u256(); let bn = small_u256();
+    kani::assume(!b0.is_zero());
+    let c0: u32 = kani::any(); let cn: u32 = kani::any();
+    kani::assume(c0 != cn);
+    set_table(c0, &b0, &bn);
+    let s: u64 = kani::any(); kani::assume(s < 1000);
+    let l0: u64 = kani::any(); let i0: u64 = kani::any(); kani::assume(l0 >= 1 && l0 < 16 && i0 < l0);
+    let t0 = small_u256();
+    let se = EpochNumberWithFraction::new_unchecked(s, i0, l0);
+    let i1: u64 = kani::any(); kani::assume(i1 >= i0 && i1 < l0);
+    let ee = EpochNumberWithFraction::new_unchecked(s, i1, l0);
+    let t1 = &t0 + &(&b0 * (i1 - i0));
+    assert!(matches!(verify_tau(se, c0, ee, c0, 2), Ok(true)), "SPEC completeness: same-epoch history rejected by verify_tau");
+    assert!(verify_total_difficulty(se, c0, &t0, ee, c0, &t1, 2).is_ok(), "SPEC completeness: same-epoch history rejected");
+    kani::cover!(i1 > i0, "several blocks inside the epoch");
+}
+
+#[kani::proof]
+#[kani::unwind(5)]
+#[kani::stub(alloc::fmt::format, stub_format)]
+#[kani::stub(log::__private_api::log, stub_log)]
+#[kani::stub(numext_fixed_uint::U256::_div_with_rem, stub_div_with_rem)]
+#[kani::stub(ckb_types::utilities::compact_to_difficulty, stub_c2d)]
+fn vtd_sound_q0() { vtd_sound_body_w::<0, 64>(); }
